@@ -13,7 +13,8 @@
       [ack_ranges_ok]           descending, Smallest <= Largest, disjoint and non-adjacent
       [pending tr]              receive time of the first accepted, still unacknowledged ack-eliciting app-data packet *)
 From Coq Require Import List ZArith Bool.
-From V Require Import Gen.Params RecvPH.Model RecvPH.ProofsHist RecvPH.ProofsAck RecvPH.ProofsDue RecvPH.ProofsDup RecvPH.ProofsMissing RecvPH.ProofsNonempty RecvPH.ProofsGap RecvPH.ProofsImmediate RecvPH.ProofsDupTrace.
+From V Require Import Gen.Params RecvPH.Model RecvPH.ProofsHist RecvPH.ProofsAck RecvPH.ProofsDue RecvPH.ProofsDup RecvPH.ProofsMissing RecvPH.ProofsNonempty RecvPH.ProofsGap RecvPH.ProofsImmediate RecvPH.ProofsDupTrace RecvPH.ProofsTimer.
+From V Require RunLoop.Model.
 Import ListNotations.
 Open Scope Z_scope.
 
@@ -243,6 +244,23 @@ Theorem C07_ack_due : forall (ops : list op) t,
      exists f, snd (h_get_ack h rph_Enc1RTT now only) = Some f).
 Proof. exact ack_due. Qed.
 Print Assumptions C07_ack_due.
+
+(** (b) through the connection's timer (composition with C17's model of connection.go
+    maybeResetTimer, whose ACK-alarm input is receivedPacketHandler.GetAlarmTimeout()): while an
+    accepted ack-eliciting application-data packet is unacknowledged and the connection is not
+    hard-blocked (send queue full), either an ACK is queued - the packer's GetAckFrame returns it at
+    once, with onlyIfQueued or not - or the deadline the run loop arms is at most
+    [t_first + MaxAckDelay], and at every wake-up from then on the packer's call returns the frame. *)
+Theorem C07_ack_leaves_by_deadline : forall (ops : list op) t (s : RunLoop.Model.st) pto retire loss,
+  let h := fst (run newHandler ops) in
+  pending (trace newHandler ops) = Some t -> 0 <= t ->
+  RunLoop.Model.blocked s <> rl_blockModeHardBlocked ->
+  (aAckQueued (hApp h) = true /\
+     forall now only, exists f, snd (h_get_ack h rph_Enc1RTT now only) = Some f) \/
+  (RunLoop.Model.maybeResetTimer s pto retire (aAckAlarm (hApp h)) loss <= t + rph_MaxAckDelay /\
+     forall now only, t + rph_MaxAckDelay <= now -> exists f, snd (h_get_ack h rph_Enc1RTT now only) = Some f).
+Proof. exact ack_leaves_by_deadline. Qed.
+Print Assumptions C07_ack_leaves_by_deadline.
 
 (** (b) The ACK is queued on the second ack-eliciting packet, on ECN-CE, and stays queued. *)
 Theorem C07_ack_queued_rules : forall a pn ecn t,
